@@ -1040,3 +1040,330 @@ def connection_loss_ok(transport: str, frames, cut, chunks, nchannels: int = 2, 
     except OSError:
         pass
     return True
+
+
+# ---------------------------------------------------------------------------------------
+# C07 / C10: histories of frames driven through the real receiver thread body
+# ---------------------------------------------------------------------------------------
+
+class LoopGateway(gb.BaseGateway):
+    """Real BaseGateway over Popen2IO; what it sends is recorded in io.outfile (a PipeFile)."""
+
+
+def make_gateway(wire: bytes, cls=None, startcount: int = 1):
+    em = FakeExecModel()
+    out = PipeFile()
+    io = gb.Popen2IO(out, PipeFile(ChunkSource(wire)), em)
+    gw = (cls or LoopGateway)(io, "gw", _startcount=startcount)
+    gw._out = out
+    return gw
+
+
+def sent_frames(gw):
+    """decode what the gateway wrote so far into (code, channelid, payload) tuples."""
+    data = gw._out.getvalue()
+    frames = []
+    p = 0
+    while p < len(data):
+        code = data[p] if data[p] < 128 else data[p] - 256
+        cid = int.from_bytes(data[p + 1 : p + 5], "big", signed=True)
+        n = int.from_bytes(data[p + 5 : p + 9], "big", signed=True)
+        frames.append((code, cid, data[p + 9 : p + 9 + n]))
+        p += 9 + n
+    return frames
+
+
+def data_frame(cid, item) -> bytes:
+    return ref_frame(gb.Message.CHANNEL_DATA, cid, gb.dumps_internal(item))
+
+
+class Boom(Exception):
+    pass
+
+
+TOKEN = "boom-token-1337"
+
+
+def quiet_stderr():
+    """gateway_base writes warnings with sys.stderr.write(); the C-level write rejects CrossHair's
+    symbolic strings.  Inside harnesses the module sees a sys whose stderr swallows everything."""
+    import sys as _sys
+
+    class _Err:
+        def write(self, s):
+            return 0
+
+        def flush(self):
+            pass
+
+    class _Sys:
+        stderr = _Err()
+
+        def __getattr__(self, name):
+            return getattr(_sys, name)
+
+    if not REPLAY:
+        gb.sys = _Sys()
+
+
+def drop_channel(gw, ch):
+    """What CPython's refcounting does when the last reference to a Channel goes away: __del__ runs,
+    then the WeakValueDictionary entry vanishes.  Done explicitly (instead of `del`) because under
+    CrossHair's tracer frames keep extra references and the collection moment is not deterministic."""
+    gb.Channel.__del__(ch)
+    gw._channelfactory._channels.pop(ch.id, None)
+    ch.gateway = None   # the eventual real __del__ then does nothing
+
+
+class PeerMissedError(Exception):
+    """the peer of a failing callback never saw the RemoteError (known shape: channel dropped)"""
+
+
+def callback_failure_ok(fail_at, alive: bool, n_items: int = 3, strict_peer: bool = True) -> bool:
+    """Side A has a callback on channel 1 that raises at item index `fail_at`; a sibling channel 3
+    receives interleaved traffic.  Checks A (failing side), the wire, and the peer B."""
+    seen = []
+
+    def cb(item):
+        seen.append(item)
+        if item == fail_at:
+            raise Boom(TOKEN)
+
+    wire = b""
+    for k in range(n_items):
+        wire = wire + data_frame(1, k) + data_frame(3, 100 + k)
+    A = make_gateway(wire)
+    ch1 = A.newchannel()
+    ch3 = A.newchannel()
+    ch1.send("x")
+    ch1.send("y")
+    ch1.setcallback(cb)
+    if not alive:
+        drop_channel(A, ch1)   # the channel object is gone, the callback stays registered
+    A._thread_receiver()          # must return normally
+    failing = 0 <= fail_at < n_items
+    # callback saw items up to and including the failing one, each once, in order; nothing afterwards
+    want_seen = list(range(fail_at + 1)) if failing else list(range(n_items))
+    if seen != want_seen:
+        return False
+    # the sibling channel is undisturbed, including frames that came after the failure
+    for k in range(n_items):
+        try:
+            if recv_nb(ch3) != 100 + k:
+                return False
+        except Exception:
+            return False
+    # the connection stayed up until the real end of the stream
+    if not isinstance(getattr(A, "_error", None), EOFError):
+        return False
+    out = sent_frames(A)
+    errs = [f for f in out if f[0] == gb.Message.CHANNEL_CLOSE_ERROR]
+    if failing:
+        if len(errs) != 1 or errs[0][1] != 1:
+            return False
+        text = gb.loads_internal(errs[0][2])
+        if not isinstance(text, str) or "Boom" not in text or TOKEN not in text:
+            return False
+    elif errs:
+        return False
+    if alive and failing:
+        # the failing side's own channel: closed, with a proper error
+        if not ch1.isclosed():
+            return False
+        try:
+            ch1.waitclose()
+            return False
+        except gb.RemoteError as e:
+            if TOKEN not in str(e):
+                return False
+        try:
+            ch1.send(1)
+            return False
+        except OSError:
+            pass
+    # the peer: earlier items in order, then the RemoteError exactly once, then EOFError
+    wire_b = b""
+    for code, cid, payload in out:
+        wire_b = wire_b + ref_frame(code, cid, payload)
+    B = make_gateway(wire_b, startcount=2)
+    p1 = B._channelfactory.new(1)
+    B._thread_receiver()
+    try:
+        if recv_nb(p1) != "x" or recv_nb(p1) != "y":
+            return False
+    except Exception:
+        return False
+    if failing:
+        try:
+            recv_nb(p1)
+            return False
+        except gb.RemoteError as e:
+            if TOKEN not in str(e) or "Boom" not in str(e):
+                return False
+        except EOFError:
+            # A dropped its channel object earlier: it announced CHANNEL_LAST_MESSAGE, the peer forgot the
+            # channel, and the later CLOSE_ERROR is only warned about on the peer's stderr
+            if alive or strict_peer:
+                raise PeerMissedError("peer got EOFError instead of the RemoteError") from None
+    for _ in range(2):
+        try:
+            recv_nb(p1)
+            return False
+        except EOFError:
+            pass
+    return True
+
+
+def remote_body_failure_ok(n_sends, raises: bool, sibling_items) -> bool:
+    """WorkerGateway.executetask with a body that sends n items and then raises (or not)."""
+    W = make_gateway(b"", cls=gb.WorkerGateway, startcount=2)
+    W._executetask_complete = None
+    ch = W._channelfactory.new(1)
+    sib = W._channelfactory.new(3)
+    src = "for i in range(%d):\n    channel.send(i)\n" % n_sends
+    if raises:
+        src += "raise ValueError(%r)\n" % TOKEN
+    W.executetask((ch, (src, None, None, {})))
+    for s in sibling_items:
+        sib.send(s)
+    if not ch.isclosed() or sib.isclosed():
+        return False
+    out = sent_frames(W)
+    mine = [f for f in out if f[1] == 1]
+    want = n_sends + 1
+    if len(mine) != want:
+        return False
+    for i in range(n_sends):
+        if mine[i][0] != gb.Message.CHANNEL_DATA or gb.loads_internal(mine[i][2]) != i:
+            return False
+    last = mine[-1]
+    if raises:
+        if last[0] != gb.Message.CHANNEL_CLOSE_ERROR:
+            return False
+        text = gb.loads_internal(last[2])
+        if "ValueError" not in text or TOKEN not in text or "Traceback" not in text:
+            return False
+    elif last[0] != gb.Message.CHANNEL_CLOSE:
+        return False
+    # the initiating side sees: items, then RemoteError once (if raised), then EOFError; sibling untouched
+    wire = b""
+    for code, cid, payload in out:
+        wire = wire + ref_frame(code, cid, payload)
+    I = make_gateway(wire, startcount=1)
+    c1 = I.newchannel()
+    c3 = I.newchannel()
+    I._thread_receiver()
+    try:
+        for i in range(n_sends):
+            if recv_nb(c1) != i:
+                return False
+        for s in sibling_items:
+            if recv_nb(c3) != s:
+                return False
+    except Exception:
+        return False
+    if raises:
+        try:
+            recv_nb(c1)
+            return False
+        except gb.RemoteError as e:
+            if TOKEN not in str(e):
+                return False
+    try:
+        recv_nb(c1)
+        return False
+    except EOFError:
+        pass
+    if c3.isclosed():      # only the connection end (sendonly) touched the sibling
+        return False
+    return True
+
+
+def callback_history_ok(n_items, setcb_pos, end_cause: str, want_endmarker: bool) -> bool:
+    """Channel 1 receives n_items DATA frames and then ends by `end_cause` (close / last / closeerr /
+    eof).  setcallback() happens at position setcb_pos of that history (0 = before everything, k =
+    after k frames incl. the ending frame, beyond = after the connection is gone).  It is issued from
+    the callback of a control channel whose trigger frame is spliced into the stream at that position:
+    setcallback and every message handler run under gateway._receivelock, so this is the same as a
+    user thread winning the lock between those two frames."""
+    END = object()
+    seen = []
+    frames = [data_frame(1, k) for k in range(n_items)]
+    if end_cause == "close":
+        frames.append(ref_frame(gb.Message.CHANNEL_CLOSE, 1, b""))
+    elif end_cause == "last":
+        frames.append(ref_frame(gb.Message.CHANNEL_LAST_MESSAGE, 1, b""))
+    elif end_cause == "closeerr":
+        frames.append(ref_frame(gb.Message.CHANNEL_CLOSE_ERROR, 1, gb.dumps_internal("remote boom")))
+    trigger = data_frame(3, "now")
+    inline = 0 <= setcb_pos <= len(frames)
+    wire = b""
+    for k in range(len(frames) + 1):
+        if inline and k == setcb_pos:
+            wire = wire + trigger
+        if k < len(frames):
+            wire = wire + frames[k]
+    G = make_gateway(wire)
+    ch1 = G.newchannel()
+    ctl = G.newchannel()
+    state = {"err": None}
+
+    def do_setcallback(_item=None):
+        try:
+            if want_endmarker:
+                ch1.setcallback(seen.append, endmarker=END)
+            else:
+                ch1.setcallback(seen.append)
+        except Exception as e:  # must not happen
+            state["err"] = e
+
+    ctl.setcallback(do_setcallback)
+    G._thread_receiver()
+    if not inline:
+        do_setcallback()       # after the connection was lost / the stream ended
+    if state["err"] is not None:
+        return False
+    want = list(range(n_items)) + ([END] if want_endmarker else [])
+    if seen != want:
+        return False
+    try:
+        ch1.receive()
+        return False
+    except OSError:
+        pass
+    # a second setcallback is refused, and nothing more is ever delivered
+    try:
+        ch1.setcallback(seen.append)
+        return False
+    except OSError:
+        pass
+    return seen == want and 1 not in G._channelfactory._callbacks
+
+
+def multichannel_queue_ok(n1, n2, want_endmarker: bool, close1: bool) -> bool:
+    """MultiChannel.make_receive_queue over two member channels: per member the queue shows its
+    items in order, then (if requested) exactly one endmarker."""
+    from execnet.multi import MultiChannel
+
+    END = 42
+    wire = b""
+    for k in range(max(n1, n2)):
+        if k < n1:
+            wire = wire + data_frame(1, k)
+        if k < n2:
+            wire = wire + data_frame(3, 100 + k)
+    if close1:
+        wire = wire + ref_frame(gb.Message.CHANNEL_CLOSE, 1, b"")
+    G = make_gateway(wire)
+    c1, c2 = G.newchannel(), G.newchannel()
+    mc = MultiChannel([c1, c2])
+    q = mc.make_receive_queue(endmarker=END) if want_endmarker else mc.make_receive_queue()
+    if mc.make_receive_queue() is not q:
+        return False
+    G._thread_receiver()
+    got = {1: [], 3: []}
+    while not q.empty():
+        ch, item = q.get()
+        got[ch.id].append(item)
+    tail = [END] if want_endmarker else []
+    return got[1] == list(range(n1)) + tail and got[3] == [100 + k for k in range(n2)] + tail
